@@ -39,7 +39,7 @@ fn meta() -> Meta {
     Meta {
         id: "C11",
         level: "fault_enumeration",
-        rule: "for every history (the fixed word W W W5 W W R W5 Reopen W5 W5 W plus all words of length <= 3 over {W20, W5, R} (quick) / <= 5 over {W20, W5, R, Reopen} (thorough), each after 0 or 1 clean earlier runs) and every configuration (naming x cleanup x symlink x append), every file-system point hit by the history is a crash state; each crash state is restarted with append on and off; distinct_nontrivial = distinct (configuration, history, crash site, occurrence) where the crash falls inside a rotation, cleanup or compression (not directly before a plain write); with a symlink configured the link must resolve to the file holding the restarted run's last record; of all files known the newest k+m must survive the restarted run",
+        rule: "for every history (the fixed word W W W5 W W R W5 Reopen W5 W5 W plus all words of length <= 3 over {W20, W5, R} (quick) / <= 5 over {W20, W5, R, Reopen} (thorough), each after 0 or 1 clean earlier runs) and every configuration (naming x cleanup x symlink x append), every file-system point hit by the history is a crash state; each crash state is restarted with append on and off; distinct_nontrivial = distinct (configuration, history, crash site, occurrence) where the crash falls inside a rotation, cleanup or compression (not directly before a plain write); with a symlink configured the link must resolve to the file holding the restarted run's last record; of all files known the newest k+m must survive the restarted run; the files are judged after the first record of the restarted run as well as at its end",
         assumptions: vec![
             "process kill, not power loss: the directory as the kernel sees it survives; a single write(2) is atomic with respect to the kill".into(),
             "a kill inside io::copy is represented by the state before gz finish (truncated gzip stream, original still present)".into(),
